@@ -129,8 +129,42 @@ func (v *skelVisitor) Visit(n ast.Node) ast.Visitor {
 // calls inside a condition were already printed as part of the condition text
 func (v *skelVisitor) calls(ast.Expr) {}
 
-func elementSkeleton(fset *token.FileSet, repo string) []skelFn {
-	files := []string{"element/table.go", "element/migration.go", "element/column.go", "element/index.go", "element/foreign_key.go"}
+// the groups of source files a skeleton fact is extracted for (name of the Lean definition, files)
+var skeletonGroups = []struct {
+	name, doc string
+	files     []string
+	only      []string // when set: the functions (by name after the receiver) the group is restricted to
+	except    []string
+}{
+	{"elementSkeleton", "package element", []string{"element/table.go", "element/migration.go", "element/column.go", "element/index.go", "element/foreign_key.go"}, nil, nil},
+	{"builderSkeleton", "package sql_builder", []string{"sql-builder/builder.go", "sql-builder/options.go"}, nil, nil},
+	{"mermaidSkeleton", "package mermaidjs", []string{"export/mermaidjs/builder.go"}, nil, nil},
+	{"avroSkeleton", "package avro", []string{"export/avro/builder.go", "export/avro/schema.go"}, nil, nil},
+	{"apiLoadSkeleton", "the constructor, the options and the load / diff / print entry points of sqlize.go", []string{"sqlize.go", "options.go"},
+		nil, []string{"HashValue", "MermaidJsErd", "MermaidJsLive", "ArvoSchema", "selectTable", "StringUpWithVersion", "StringDownWithVersion",
+			"migrationUpVersion", "migrationDownVersion", "WriteFiles", "WriteFilesVersion", "WriteFilesWithVersion", "writeFiles", "FromMigrationFolder"}},
+	{"apiHashSkeleton", "Sqlize.HashValue", []string{"sqlize.go"}, []string{"HashValue"}, nil},
+	{"apiExportSkeleton", "the export entry points of sqlize.go", []string{"sqlize.go"}, []string{"MermaidJsErd", "MermaidJsLive", "ArvoSchema", "selectTable"}, nil},
+	{"apiVersionSkeleton", "the version entry points of sqlize.go", []string{"sqlize.go"},
+		[]string{"StringUpWithVersion", "StringDownWithVersion", "migrationUpVersion", "migrationDownVersion"}, nil},
+	{"apiFilesSkeleton", "the file entry points of sqlize.go", []string{"sqlize.go"},
+		[]string{"WriteFiles", "WriteFilesVersion", "WriteFilesWithVersion", "writeFiles", "FromMigrationFolder"}, nil},
+	{"utilsStrSkeleton", "utils/str.go (but MigrationFileName) and utils/slc.go", []string{"utils/str.go", "utils/slc.go"}, nil, []string{"MigrationFileName"}},
+	{"utilsFileSkeleton", "utils/file.go and MigrationFileName", []string{"utils/file.go", "utils/str.go"}, []string{"ReadPath", "glob", "MigrationFileName"}, nil},
+	{"parserSkeleton", "package sql_parser", []string{"sql-parser/parser.go", "sql-parser/mysql.go", "sql-parser/postgresql.go", "sql-parser/sqlite.go"}, nil, nil},
+	{"templatesSkeleton", "package sql_templates", []string{"sql-templates/ddl.go", "sql-templates/option.go", "sql-templates/type.go"}, nil, nil},
+}
+
+func inNames(l []string, n string) bool {
+	for _, x := range l {
+		if x == n {
+			return true
+		}
+	}
+	return false
+}
+
+func skeletonOf(fset *token.FileSet, repo string, files, only, except []string) []skelFn {
 	var out []skelFn
 	for _, f := range files {
 		file, err := parser.ParseFile(fset, filepath.Join(repo, f), nil, 0)
@@ -140,6 +174,9 @@ func elementSkeleton(fset *token.FileSet, repo string) []skelFn {
 		for _, d := range file.Decls {
 			fn, ok := d.(*ast.FuncDecl)
 			if !ok || fn.Body == nil {
+				continue
+			}
+			if (only != nil && !inNames(only, fn.Name.Name)) || inNames(except, fn.Name.Name) {
 				continue
 			}
 			recv := ""
